@@ -206,7 +206,14 @@ class Module:
                 else:
                     ei.from_arms.append((iv[0], iv[1], res))
 
+    @staticmethod
+    def _unblock(b):
+        while b["k"] == "Block" and len(b["stmts"]) == 1 and b["stmts"][0]["k"] == "ExprStmt" and not b["stmts"][0].get("semi"):
+            b = b["stmts"][0]["e"]
+        return b
+
     def _try_from_result(self, ei, b, param):
+        b = self._unblock(b)
         if b["k"] != "Call" or b["func"]["k"] != "Path":
             return None
         f = b["func"]["path"]["s"]
@@ -241,7 +248,7 @@ class Module:
                 p = arm["pat"]
                 if p["k"] == "PPath":
                     v = p["path"]["s"].split("::", 1)[1]
-                    val = self._lit(arm["body"])
+                    val = self._lit(self._unblock(arm["body"]))
                     if val is None:
                         ei.problems.append(f"into arm for {v} is not a literal")
                     else:
@@ -253,7 +260,7 @@ class Module:
                     nm = None
                     if inner["k"] == "PTupleStruct" and inner["path"]["s"] == "Private" and inner["elems"][0]["k"] == "PIdent":
                         nm = inner["elems"][0]["id"]
-                    b = arm["body"]
+                    b = self._unblock(arm["body"])
                     if nm and b["k"] == "Unary" and b["op"] == "*" and b["e"]["k"] == "Path" and b["e"]["path"]["s"] == nm:
                         ei.into_arms[v] = "value"
                     else:
@@ -312,6 +319,30 @@ class Module:
 
     def compute_sizes(self, rounds=4):
         self.detect_customs()
+        # static encoded size: encoded_len() evaluates to a constant
+        from .rseval import IntV as _IntV, LitV as _LitV
+        for _ in range(rounds):
+            changed = False
+            for ty in self.type_names():
+                if self.summ.packets[ty].get("static_size") is not None:
+                    continue
+                if self.fn(ty, "encoded_len") is None:
+                    continue
+                try:
+                    ev = self.eval_fn(ty, "encoded_len", "size")
+                except Exception:
+                    continue
+                val = ev.returns[-1][0] if ev.returns else None
+                c = None
+                if isinstance(val, _LitV):
+                    c = val.v
+                elif isinstance(val, _IntV) and val.e.is_const():
+                    c = val.e.cval()
+                if c is not None:
+                    self.summ.packets[ty]["static_size"] = c
+                    changed = True
+            if not changed:
+                break
         for _ in range(rounds):
             changed = False
             for ty in self.type_names():
